@@ -111,6 +111,16 @@ class Laws:
             ctx.violation("c15_same_content_not_equal", w)
         if not equal and ab:
             ctx.violation("c15_different_content_equal", w)
+        if ab is True:
+            # Python's own contract, for whatever of these classes is hashable: equal => same hash
+            try:
+                ha, hb = hash(a), hash(b)
+            except TypeError:
+                ha = hb = None
+            else:
+                ctx.count("hash_pairs_of_equal_objects")
+            if ha != hb:
+                ctx.violation("c15_equal_objects_hash_differently", dict(w, hashes=[ha, hb]))
         for foreign in (None, 0, "x", (1, 2), object()):
             try:
                 if (a == foreign) is True:
